@@ -233,7 +233,7 @@ def main():
         # driver: memory errors and undefined casts in the library abort the driver and show up as crashed cases
         try:
             t1 = time.time()
-            flags = '-g -fsanitize=address,undefined,float-cast-overflow -fno-sanitize-recover=all' + (' -DVERIF_MPI' if use_mpi else '')
+            flags = '-g -fsanitize=address,undefined,float-cast-overflow -fno-sanitize-recover=all -D_GLIBCXX_ASSERTIONS' + (' -DVERIF_MPI' if use_mpi else '')      # (libstdc++ assertions: operator[] / front() / back() out of range abort)
             san = tie.cxx_build(flags, 'asan-mpi' if use_mpi else 'asan')
             env = dict(os.environ); env['ASAN_OPTIONS'] = 'detect_leaks=0'; env['VERIF_TMP'] = os.path.join(BUILD, 'tmp')
             san_cases = list(cases)
@@ -249,6 +249,26 @@ def main():
                                        'cases': [dump(list(c_[:4]) + [[]])], 'observed': o[:400]})
         except Stage as e:
             thorough_extra['sanitizer'] = {'build_failed': e.detail[-300:]}
+        if use_mpi:
+            # the ranks of the shim are threads that run the library's templates side by side: a ThreadSanitizer build reports state the
+            # library shares between them (static or global buffers, caches) as data races
+            try:
+                t1 = time.time()
+                ts = tie.cxx_build('-g -fsanitize=thread -DVERIF_MPI', 'tsan-mpi')
+                env = dict(os.environ); env['TSAN_OPTIONS'] = 'halt_on_error=1 exitcode=66'; env['VERIF_TMP'] = os.path.join(BUILD, 'tmp')
+                undefined = set(r['case'][0] for r in results if textcmp.has_ub(r['model'])) if cxx_results is not None else set()
+                ts_cases = [c_ for c_ in cases if c_[2] == 'run' and any(e[0] == 'ops' and any(op[0] == 'mpi' for op in e[1]) for e in c_[3]) and c_[0] not in undefined]
+                if a.tier != 'thorough' and len(ts_cases) > 40:
+                    rng6 = random.Random(seed * 49979687 + int(pid[1:])); ts_cases = rng6.sample(ts_cases, 40)
+                lines = [dump([i, t, cmd, args, []]) for (i, t, cmd, args) in ts_cases]
+                outs = tie.run_driver(ts, lines, env=env, chunk=5, timeout=3000, cpu_limit=900, mem_limit=None)
+                raced = [(c_, o) for c_, o in zip(ts_cases, outs) if o.startswith('(crash')]
+                thorough_extra['thread_sanitizer'] = {'cases': len(ts_cases), 'crashed': len(raced), 'wall_s': round(time.time() - t1, 1)}
+                for c_, o in raced[:2]:
+                    sanitizer_viol.append({'what': 'the ThreadSanitizer build aborts on this input (ranks = threads of one process): %s' % (bytes.fromhex(o.split('"')[1]).decode(errors='replace')[-300:] if '"' in o else o[:200]),
+                                           'cases': [dump(list(c_[:4]) + [[]])], 'observed': o[:400]})
+            except Stage as e:
+                thorough_extra['thread_sanitizer'] = {'build_failed': e.detail[-300:]}
 
     if cases and st.get('cxx_exe') and cxx_results is not None and not os.environ.get('VERIF_NO_NDEBUG'):
         # the build configuration as an input: the same sample of cases through drivers compiled the way users compile -
